@@ -833,6 +833,12 @@ func (l *lexer) scanHeredocs() bool {
 						goto Error
 					}
 					l.esc(r)
+					if r == '\n' && (len(l.word) == 0 || l.word[len(l.word)-1].End().Line() < start.Line() || l.word[len(l.word)-1].End() == start) {
+						// nothing but the line continuation so far: the
+						// line begins on the next one
+						l.mark(0)
+						start = l.pos
+					}
 				case '$':
 					// parameter expansion
 					l.lit()
